@@ -216,6 +216,19 @@ def leaf_rules(m, lf, run, which):
                         want = ("if", ("field", ("elem", base, lid), "is_keyframe"),
                                 ("some", ("bin", "Add", ("cast", "u32", ("idx", base, lid)), ("lit", 1))), ("none",))
                         ok = body == want and base == m.qexpr(q)
+                    elif c[0] == "mcall" and c[1].endswith("Iterator::map") and c[3] and c[3][0][0] == "lambda" and c[2][0] == "mcall" and c[2][1].endswith("Iterator::filter") \
+                            and c[2][3] and c[2][3][0][0] == "lambda":
+                        # the same selection spelled `.enumerate().filter(|(_, s)| s.is_keyframe).map(|(i, _)| i as u32 + 1)`
+                        flt, lam2 = c[2], c[3][0]
+                        lam1 = flt[3][0]
+                        base = flt[2]
+                        enumerated = False
+                        while base[0] == "mcall" and base[1].split("::")[-1] in ("iter", "into_iter", "enumerate"):
+                            enumerated = enumerated or base[1].split("::")[-1] == "enumerate"
+                            base = base[2]
+                        want1 = ("field", ("elem", base, lam1[1]), "is_keyframe")
+                        want2 = ("bin", "Add", ("cast", "u32", ("tfield", ("elem", flt, lam2[1]), 0)), ("lit", 1))
+                        ok = enumerated and lam1[2] == want1 and lam2[2] == want2 and base == m.qexpr(q)
                 run.check(ok, "R5", "%s %s/stss entries" % (key, kind), "sync samples = 1-based indices of elements with the key flag",
                           "stss entries are not `index+1` of exactly the queue elements whose key flag is set: %s" % d[:300])
             # stsz must be one entry per element of the queue, the element's own data length
